@@ -4,7 +4,9 @@ package c20
 import (
 	"encoding/json"
 	"fmt"
+	"io"
 	"os"
+	"runtime"
 	"strings"
 	"sync/atomic"
 
@@ -21,7 +23,7 @@ type Case struct {
 	Stream string `json:"-"`
 	Gen    GenP   `json:"gen"`
 	Limit  int    `json:"limit"` // 0: default (64 KiB)
-	Mode   string `json:"mode"`  // "read", "conn-nil" (Buffer(nil, M)), "conn-buf" (Buffer(make([]byte,4), M))
+	Mode   string `json:"mode"`  // "read", "conn-nil" (Buffer(nil, M)), "conn-buf" (Buffer(make([]byte,4), M)), "conn-cap" (Buffer(make([]byte,0,M), 0))
 	Chunk  int    `json:"chunk"` // 0 whole; k: k-byte reads; negative: one cut at -k
 	// EOFWithLast: the reader returns io.EOF together with the last bytes (as http bodies with a known length do)
 	EOFWithLast bool `json:"eof_with_last,omitempty"`
@@ -243,8 +245,60 @@ func maxOf(a []int) int {
 
 func run(cc c01.Case, mode string) ([]sse.Event, error, int) {
 	r := &c01.ChunkReader{Data: cc.Stream, Cuts: cc.Cuts, EOFWithLast: cc.EOFWithLast}
-	events, err := c01.RunWith(cc, r, mode == "conn-buf")
+	events, err := c01.RunWith(cc, r, mode == "conn-buf", mode == "conn-cap")
 	return events, err, r.Pulled
+}
+
+// depthReader records how deep the call stack is whenever the parser asks for more input.
+type depthReader struct {
+	s        string
+	first    int
+	max      int
+	chunk    int
+	maxedOut bool
+}
+
+func (d *depthReader) Read(p []byte) (int, error) {
+	var pcs [1024]uintptr
+	n := runtime.Callers(0, pcs[:])
+	if d.first == 0 {
+		d.first = n
+	}
+	if n > d.max {
+		d.max = n
+	}
+	if len(d.s) == 0 {
+		return 0, io.EOF
+	}
+	k := min(d.chunk, len(p), len(d.s))
+	copy(p, d.s[:k])
+	d.s = d.s[k:]
+	return k, nil
+}
+
+// judgeDepth: memory must not grow with the NUMBER of chunks either: a long stream of keep-alive comments,
+// blank lines and small events is read with the call stack staying as shallow as it was at the first Read.
+func judgeDepth(shape string, conn bool) string {
+	var sb strings.Builder
+	for i := 0; i < 3000; i++ {
+		switch shape {
+		case "keepalives":
+			sb.WriteString(": ping\n\n")
+		case "blank":
+			sb.WriteString("\n")
+		case "unknown-fields":
+			sb.WriteString("foo: bar\n\n")
+		default:
+			sb.WriteString("data: x\n\n")
+		}
+	}
+	d := &depthReader{s: sb.String(), chunk: 64}
+	cc := c01.Case{Stream: sb.String(), StopAfter: -1, Conn: conn}
+	_, _ = c01.RunWith(cc, d, false)
+	if d.max > d.first+40 {
+		return fmt.Sprintf("C20: the call stack grows with the length of the stream\x00shape=%s connection=%v: %d frames at the first Read, %d at the deepest (3000 chunks): each chunk costs stack that is only released at the end", shape, conn, d.first, d.max)
+	}
+	return ""
 }
 
 // runAgain is run for sse.Read with the iterator used three times: first stopping after its first event, then
@@ -280,7 +334,7 @@ var Check = &sqrun.Check{ID: "C20", QuickBudget: 60, ThoroughBudget: 600,
 		if c.Thorough {
 			limits = append(limits, 9, 31, 32, 100, 257, 1000, 4095, 4096, 4097)
 		}
-		modes := []string{"read", "conn-nil", "conn-buf"}
+		modes := []string{"read", "conn-nil", "conn-buf", "conn-cap"}
 		add := func(g GenP, limit int, chunks []int) {
 			for _, m := range modes {
 				for _, ch := range chunks {
@@ -353,9 +407,21 @@ var Check = &sqrun.Check{ID: "C20", QuickBudget: 60, ThoroughBudget: 600,
 				}
 			}
 		}
+		for _, sh := range []string{"keepalives", "blank", "unknown-fields", "events"} {
+			for _, conn := range []bool{false, true} {
+				cases.Add(1)
+				nontriv.Add(1)
+				if v := judgeDepth(sh, conn); v != "" {
+					i := strings.IndexByte(v, 0)
+					c.Rep.Add(v[:i], v[i+1:], func() string {
+						return ev.WriteReplay("C20", v[:i], map[string]any{"property": "C20", "violation": v[i+1:], "signature": v[:i], "how_to_replay": "./check C20 (the stack-depth probes run on every invocation)"})
+					})
+				}
+			}
+		}
 		cov := ev.Coverage{"evaluations": cases.Load(), "distinct_nontrivial": nontriv.Load(), "exhaustive": true,
 			"samples": []any{list[0], list[len(list)/2], list[len(list)-1]},
-			"rule":    fmt.Sprintf("limits %v via ReadConfig.MaxEventSize, Connection.Buffer(nil, M) and Connection.Buffer(make([]byte,4), M), plus the default 64 KiB and an enlarged 100000; stream shapes (endless line, endless event, only blank lines (LF and CRLF), only comments, an event of size n first / in the middle / last / last without blank line / with CRLF, b blank lines before it, comment-only keep-alive chunks (LF and CRLF, one and two lines) between small events, many small events) with n swept over [M-4, M+4] (and around 4096 / 65536 for the default); chunkings whole, 1-byte, 3-byte, one cut at M-1 / M / M+1 (4096 / 4097 / 1000 for the long ones); each with io.EOF returned separately and together with the last bytes; for sse.Read (whole and byte-wise) also with the same iterator value ranged over twice more afterwards, which must not panic; all through a counting reader. Every case is distinct by construction and non-trivial (each stream contains events or exceeds the limit).", limits)}
+			"rule":    fmt.Sprintf("limits %v via ReadConfig.MaxEventSize, Connection.Buffer(nil, M), Connection.Buffer(make([]byte,4), M) and Connection.Buffer(make([]byte,0,M), 0), plus the default 64 KiB and an enlarged 100000; stream shapes (endless line, endless event, only blank lines (LF and CRLF), only comments, an event of size n first / in the middle / last / last without blank line / with CRLF, b blank lines before it, comment-only keep-alive chunks (LF and CRLF, one and two lines) between small events, many small events) with n swept over [M-4, M+4] (and around 4096 / 65536 for the default); chunkings whole, 1-byte, 3-byte, one cut at M-1 / M / M+1 (4096 / 4097 / 1000 for the long ones); each with io.EOF returned separately and together with the last bytes; for sse.Read (whole and byte-wise) also with the same iterator value ranged over twice more afterwards, which must not panic; all through a counting reader; plus 3000-chunk streams of keep-alives / blank lines / unknown fields / small events during which the call stack must stay as shallow as at the first Read. Every case is distinct by construction and non-trivial (each stream contains events or exceeds the limit).", limits)}
 		return &sqrun.Outcome{Level: "exploration", Coverage: cov, Assumptions: []string{
 			"an event whose size (including the blank lines before it) equals or exceeds the limit may be reported as too long or delivered intact; it may never be delivered truncated",
 			"'the last completed event' is the end of the last block (blank lines + lines + terminating blank line) before the oversized one",
